@@ -94,11 +94,21 @@ def t_is_sum(r, a, b):
             (t_sc(r) == t_al(a, r[1]) + t_al(b, r[1])))
 
 
-def t_is_diff(r, a, b):
-    """D(r) == D(a) - D(b)"""
-    e0 = min2(a[1], b[1])
-    return ((t_al(r, e0) == t_al(a, e0) - t_al(b, e0)) if r[1] >= e0 else
-            (t_sc(r) == t_al(a, r[1]) - t_al(b, r[1])))
+def t_neg(t):
+    """the triple of -D(t)"""
+    return (not t[0], t[1], t[2])
+
+
+def trip_neg(x):
+    """triple of -x for an operand x; for int / float / Fraction the native negation is used"""
+    if cls_name(x) == 'RealFloat' or cls_name(x) == 'Float':
+        return t_neg(trip(x))
+    return trip(-x)
+
+
+def t_is_diff(r, a, nb):
+    """D(r) == D(a) - D(b), given nb = the triple of -D(b)"""
+    return t_is_sum(r, a, nb)
 
 
 def t_is_prod(r, a, b):
